@@ -30,6 +30,7 @@ PNext == /\ i <= NCalls
 DNext == \/ /\ i <= NCalls /\ Call.outcome = "ok" /\ PageStart(Call.worker, Call.page)
             /\ d' = 0 /\ UNCHANGED <<tid, i>>
          \/ /\ LineConfident /\ UNCHANGED <<tid, i, d>>
+         \/ /\ LineConfidentNoText /\ UNCHANGED <<tid, i, d>>
          \/ /\ LineFail
             /\ IF Broken(cur, pos) /\ ~ThresholdSet(cfgid)          \* the decoder WAS called for a broken line (and raised)
                THEN /\ d < Len(Call.decodes)
